@@ -739,6 +739,24 @@ pub mod kit {
             .build()
     }
 
+    /// slot2 = EXTCODEHASH(COINBASE) (zero for an absent account, the empty hash for an existing
+    /// code-less one), slot3 = BALANCE(COINBASE) + 1.
+    pub fn coinbase_hash_reader() -> Vec<u8> {
+        Asm::new()
+            .op(op::COINBASE)
+            .op(op::EXTCODEHASH)
+            .push(2)
+            .op(op::SSTORE)
+            .op(op::COINBASE)
+            .op(op::BALANCE)
+            .push(1)
+            .op(op::ADD)
+            .push(3)
+            .op(op::SSTORE)
+            .op(op::STOP)
+            .build()
+    }
+
     /// Sends `callvalue` on to the address in calldata[0] (a value-moving CALL from this context).
     pub fn forwarder() -> Vec<u8> {
         Asm::new()
